@@ -12,7 +12,7 @@ RULE = ("discretize: random annotations (overlapping same-label tracks, 1-3 labe
         "None / larger / smaller than the extent, resolution a number or a SlidingWindow with duration = 1..5 steps, "
         "optional duration and explicit label lists (permuted, with an absent label), and the falsy-but-valid duration=0, labels=[] and an empty support segment; track-collision families (a support cutting one track down to exactly another segment with the same track name); one_hot_encoding: annotation "
         "cropped to the support, support a Segment or a Timeline with a hole, explicit label lists incl. a missing "
-        "label (ValueError), followed by one_hot_decoding of the result; regime K0; discretize also on decimal resolutions (10 ms, 16 ms, 0.3 s ...) and bounds, judged in the driver against the property's clauses with exact rationals (frame count, window, centre rule with its one-step margin); non-trivial = at least two "
+        "label (ValueError), followed by one_hot_decoding of the result; regime K0; discretize also on decimal resolutions (10 ms, 16 ms, 0.3 s ...) and bounds, judged in the driver against the property's clauses with exact rationals (frame count, window, centre rule with its one-step margin), a third of them under Segment.set_precision(1 or 2) with on-tick times on both sides of zero judged against the requested times; non-trivial = at least two "
         "frames active for some label")
 
 
